@@ -504,25 +504,8 @@ theorem SealInv.pools {s0 st : State} (h : SealInv s0 st) (pools : AList PoolKey
     (hk : (pools.map (·.1)).Nodup) : SealInv s0 { st with pools := pools } :=
   ⟨h.history, h.height, h.network, h.speed, h.txs, hk, h.coins⟩
 
-theorem createBuiltins_seal {s0 st : State} (hi : SealInv s0 st) : SealInv s0 (createBuiltins st) := by
-  unfold createBuiltins
-  simp only
-  refine hi.pools _ ?_
-  have h1 : (AList.keys (if (st.pools.get poolMelSym).isNone = true then st.pools.set poolMelSym builtinDefault
-      else st.pools)).Nodup := by
-    split
-    · exact AList.keys_nodup_set _ _ hi.poolKeys
-    · exact hi.poolKeys
-  generalize (if (st.pools.get poolMelSym).isNone = true then st.pools.set poolMelSym builtinDefault
-      else st.pools) = p1 at h1 ⊢
-  have h2 : (AList.keys (if (p1.get poolMelErg).isNone = true then p1.set poolMelErg builtinDefault else p1)).Nodup := by
-    split
-    · exact AList.keys_nodup_set _ _ h1
-    · exact h1
-  generalize (if (p1.get poolMelErg).isNone = true then p1.set poolMelErg builtinDefault else p1) = p2 at h2 ⊢
-  split
-  · exact AList.keys_nodup_set _ _ h2
-  · exact h2
+theorem createBuiltins_seal {s0 st : State} (hi : SealInv s0 st) : SealInv s0 (createBuiltins st) :=
+  hi.pools (createBuiltins st).pools (createBuiltins_keys_nodup st hi.poolKeys)
 
 theorem processPegging_seal {s0 st st' : State} (hi : SealInv s0 st) (h : processPegging st = .ok st') :
     SealInv s0 st' := by
